@@ -81,12 +81,12 @@ def tick(m, fundamental=None):
 
 
 def new_order(g, tag, is_buy, market=False, ttl=None, agent_id=0, market_id=0, price_hi=PRICE_HI,
-              vol_hi=VOL_HI, price=None, volume=None):
+              vol_hi=VOL_HI, price=None, volume=None, price_lo=1):
     v = volume if volume is not None else g.int(f"v_{tag}", 1, vol_hi)
     if market:
         return Order(agent_id=agent_id, market_id=market_id, is_buy=is_buy, kind=MARKET_ORDER,
                      volume=v, ttl=ttl)
-    p = price if price is not None else g.int(f"p_{tag}", 0, price_hi)
+    p = price if price is not None else g.int(f"p_{tag}", price_lo, price_hi)
     return Order(agent_id=agent_id, market_id=market_id, is_buy=is_buy, kind=LIMIT_ORDER,
                  volume=v, price=p, ttl=ttl)
 
